@@ -5,5 +5,6 @@ CONSTANTS
   Opts <- RepOpts
   MaxSet = 2
   Variant = "intended"
+  Fixed = {}
 INVARIANTS TypeOK C35_PrintedFileAccepted C35_RoundTrip
 CHECK_DEADLOCK FALSE
